@@ -15,6 +15,7 @@ import (
 	"strconv"
 	"strings"
 	"sync"
+	"time"
 
 	"github.com/containerd/containerd/v2/core/remotes/docker"
 	"github.com/containerd/containerd/v2/pkg/reference"
@@ -60,6 +61,9 @@ type Registry struct {
 	// Decide is consulted for every request (with the lock released); nil = default behaviour.
 	Decide func(r *Req) Action
 	down   bool
+	// ClientTimeout is the per-request timeout of the http.Client handed out by Hosts (the daemon always
+	// configures one: default 30 s, see service/resolver.RegistryHostsFromConfig).  Default 1 s.
+	ClientTimeout time.Duration
 }
 
 // New returns an empty registry.
@@ -302,9 +306,13 @@ func (r *Registry) Hosts(hosts ...string) source.RegistryHosts {
 		if len(hs) == 0 {
 			hs = []string{ref.Hostname()}
 		}
+		to := r.ClientTimeout
+		if to == 0 {
+			to = time.Second
+		}
 		for _, h := range hs {
 			out = append(out, docker.RegistryHost{
-				Client:       &http.Client{Transport: r},
+				Client:       &http.Client{Transport: r, Timeout: to},
 				Host:         h,
 				Scheme:       "https",
 				Path:         "/v2",
